@@ -44,60 +44,66 @@ Fields == { <<"Evt", "met", "Int">>, <<"Evt", "n", "Int">>, <<"Evt", "jets", "Se
 
 (* ------------------------------------------------------------------ *)
 (* production families                                                *)
-Binders == CASE Fam \in {"fuse1", "chain1", "md1", "chainx", "chainp", "mdp", "fused", "chainf"} -> {"x"}
+Binders == CASE Fam \in {"fuse1", "chain1", "md1", "chainx", "chainp", "mdp", "fused", "chainf", "e2el"} -> {"x"}
              [] Fam = "helper" -> {"a", "t", "a_1"}     \* (a_1: what an inner binder a is renamed to when it collides)
              [] Fam = "e2eb" -> {"x", "x_1"}
              [] Fam = "betads" -> {"ds"}        \* a called lambda's parameter named like the (free) dataset name
              [] Fam = "corea" -> {"arg_0", "arg_1", "arg_e"}     \* names the simplifier itself generates / names that look alike
              [] OTHER -> {"x", "y"}
 
-Enabled(prod) ==
-    CASE Fam = "core"  -> prod \in {"Select", "Where", "SelectMany", "First", "Count", "Beta",
+AllProds == {"AbsentKey", "Add", "AggExpl", "AggOdd", "And", "Beta", "Beta2", "BetaDef", "BetaKw", "BetaSel", "BetaSeq", "BetaSig", "Cmp", "Comp", "Count", "DictAttr", "DictProj", "DupKey", "First", "FirstProj", "Func", "FuncKw", "Helper", "HelperE2E", "If", "KwOp", "Len", "ListProj", "MD", "MDDef", "Max", "MethArgs", "MethKw", "Min", "Mul", "Neg", "NegIdx", "Not", "OpDef", "Or", "OtherMeth", "OutIdx", "Pack", "Select", "SelectMany", "SliceIdx", "Sum", "Thunk", "True", "TupProj", "UnIdx", "VarIdx", "Where"}
+ProdSet ==
+    CASE Fam = "core"  -> {"Select", "Where", "SelectMany", "First", "Count", "Beta",
                                     "Add", "Cmp", "TupProj", "True"}
-      [] Fam = "fuse"  -> prod \in {"Select", "Where", "SelectMany", "First", "Count", "Cmp", "Add"}
-      [] Fam = "fused" -> prod \in {"Select", "Where", "SelectMany", "OpDef", "Count"}     \* (comparisons are zero-cost leaves here)
+      [] Fam = "fuse"  -> {"Select", "Where", "SelectMany", "First", "Count", "Cmp", "Add"}
+      [] Fam = "fused" -> {"Select", "Where", "SelectMany", "OpDef", "Count"}     \* (comparisons are zero-cost leaves here)
       \* a filter / selection moved under the binder of a SelectMany while an enclosing CALLED lambda's parameter is live
-      [] Fam = "betaw" -> prod \in {"Beta", "Where", "SelectMany", "First"}
+      [] Fam = "betaw" -> {"Beta", "Where", "SelectMany", "First"}
       \* called lambdas whose parameter lists go beyond plain parameters (positional-only, keyword-only, *args)
-      [] Fam = "betav" -> prod \in {"Select", "BetaSig", "Add", "Count", "First"}
-      [] Fam = "betads" -> prod \in {"Select", "First", "BetaSeq", "Pack", "FirstProj"}
-      [] Fam = "chainf" -> prod \in {"Select", "Where", "SelectMany", "Cmp", "Pack", "First", "FirstProj"}
-      [] Fam = "corea" -> prod \in {"Select", "Where", "SelectMany", "First", "Count", "Cmp", "Add", "Beta"}
-      [] Fam = "fuse1" -> prod \in {"Select", "Where", "SelectMany", "First", "Count", "Cmp", "Add",
+      [] Fam = "betav" -> {"Select", "BetaSig", "Add", "Count", "First"}
+      [] Fam = "betads" -> {"Select", "First", "BetaSeq", "Pack", "FirstProj"}
+      [] Fam = "chainf" -> {"Select", "Where", "SelectMany", "Cmp", "Pack", "First", "FirstProj"}
+      [] Fam = "corea" -> {"Select", "Where", "SelectMany", "First", "Count", "Cmp", "Add", "Beta"}
+      [] Fam = "fuse1" -> {"Select", "Where", "SelectMany", "First", "Count", "Cmp", "Add",
                                     "Beta", "TupProj", "DictProj", "If", "MethArgs", "True"}
-      [] Fam = "pack"  -> prod \in {"Select", "Where", "SelectMany", "Cmp", "TupProj", "ListProj",
+      [] Fam = "pack"  -> {"Select", "Where", "SelectMany", "Cmp", "TupProj", "ListProj",
                                     "DictProj", "DictAttr", "First", "Count", "Add"}
-      [] Fam = "beta"  -> prod \in {"Select", "SelectMany", "Where", "Beta", "BetaKw", "Beta2", "Count",
+      [] Fam = "beta"  -> {"Select", "SelectMany", "Where", "Beta", "BetaKw", "Beta2", "Count",
                                     "First", "Add", "Cmp"}
-      [] Fam = "betad" -> prod \in {"Select", "BetaDef", "Count", "First", "Add", "Cmp"}
-      [] Fam = "expr"  -> prod \in {"Select", "Where", "First", "Count", "Add", "Mul", "Cmp", "If",
+      [] Fam = "betad" -> {"Select", "BetaDef", "Count", "First", "Add", "Cmp"}
+      [] Fam = "expr"  -> {"Select", "Where", "First", "Count", "Add", "Mul", "Cmp", "If",
                                     "And", "Or", "Not", "Neg", "MethArgs", "MethKw", "Func", "True",
                                     "Sum"}
-      [] Fam = "idx"   -> prod \in {"Select", "First", "Count", "TupProj", "ListProj", "DictProj",
+      [] Fam = "idx"   -> {"Select", "First", "Count", "TupProj", "ListProj", "DictProj",
                                     "DictAttr", "NegIdx", "VarIdx", "SliceIdx", "OutIdx", "AbsentKey",
                                     "Add", "Beta", "UnIdx", "DupKey"}
-      [] Fam = "agg"   -> prod \in {"Select", "Where", "SelectMany", "Count", "Len", "Sum", "Max", "Min",
+      [] Fam = "agg"   -> {"Select", "Where", "SelectMany", "Count", "Len", "Sum", "Max", "Min",
                                     "Add", "Cmp", "First", "AggExpl"}
-      [] Fam = "chainp" -> prod \in {"Select", "Add", "Pack"}
-      [] Fam = "chain1" -> prod \in {"Select", "Where", "SelectMany", "Cmp", "Add", "Pack", "Count", "FuncKw"}
+      [] Fam = "chainp" -> {"Select", "Add", "Pack"}
+      [] Fam = "chain1" -> {"Select", "Where", "SelectMany", "Cmp", "Add", "Pack", "Count", "FuncKw"}
       [] Fam \in {"chain", "chainx"} ->
-                          prod \in {"Select", "Where", "SelectMany", "Cmp", "Add", "Pack", "Count"}
-      [] Fam = "mdp"   -> prod \in {"Select", "MD", "Pack", "MDDef"}
-      [] Fam = "meth"  -> prod \in {"Select", "Where", "SelectMany", "First", "Count", "Cmp", "Add", "Sum",
+                          {"Select", "Where", "SelectMany", "Cmp", "Add", "Pack", "Count"}
+      [] Fam = "mdp"   -> {"Select", "MD", "Pack", "MDDef"}
+      [] Fam = "meth"  -> {"Select", "Where", "SelectMany", "First", "Count", "Cmp", "Add", "Sum",
                                     "MethArgs", "OtherMeth", "KwOp"}
-      [] Fam = "agg2"  -> prod \in {"Select", "Where", "Count", "Len", "Sum", "Max", "Min", "Add", "Cmp",
+      [] Fam = "agg2"  -> {"Select", "Where", "Count", "Len", "Sum", "Max", "Min", "Add", "Cmp",
                                     "AggOdd", "First"}
-      [] Fam = "md1"   -> prod \in {"Select", "Where", "Count", "Cmp", "MD"}
-      [] Fam = "md"    -> prod \in {"Select", "Where", "SelectMany", "Count", "Cmp", "Add", "MD", "First"}
-      [] Fam = "comp"  -> prod \in {"Comp", "Select", "Count", "Sum", "Cmp", "Add", "First", "True"}
-      [] Fam = "helper" -> prod \in {"Select", "Where", "SelectMany", "Helper", "Add", "Cmp", "Count", "First"}
-      [] Fam = "e2e"   -> prod \in {"Select", "Where", "SelectMany", "First", "Count", "Add", "Mul", "Cmp", "If",
+      [] Fam = "md1"   -> {"Select", "Where", "Count", "Cmp", "MD"}
+      [] Fam = "md"    -> {"Select", "Where", "SelectMany", "Count", "Cmp", "Add", "MD", "First"}
+      [] Fam = "comp"  -> {"Comp", "Select", "Count", "Sum", "Cmp", "Add", "First", "True"}
+      [] Fam = "helper" -> {"Select", "Where", "SelectMany", "Helper", "Add", "Cmp", "Count", "First"}
+      [] Fam = "e2e"   -> {"Select", "Where", "SelectMany", "First", "Count", "Add", "Mul", "Cmp", "If",
                                     "TupProj", "MethArgs", "MethKw", "Sum", "And", "BetaDef", "HelperE2E", "Thunk"}
-      [] Fam = "e2eb"  -> prod \in {"Select", "Add", "BetaSel"}     \* called lambdas resolved when the query is built
-      [] Fam = "e2et"  -> prod \in {"Select", "Where", "Add", "Cmp", "Thunk"}    \* thunks before bare parameter uses
-      [] Fam = "all"   -> prod \notin {"OtherMeth", "KwOp", "AggOdd", "MD", "OutIdx", "AbsentKey", "Comp", "Helper", "HelperE2E",
+      [] Fam = "e2eb"  -> {"Select", "Add", "BetaSel"}     \* called lambdas resolved when the query is built
+      [] Fam = "e2et"  -> {"Select", "Where", "Add", "Cmp", "Thunk"}
+      \* chains whose stages differ only in a constant (rendered as ONE lambda expression in a loop over the constants)
+      [] Fam = "e2el"  -> {"Select", "Where", "SelectMany"}
+      [] Fam = "all"   -> AllProds \ {"OtherMeth", "KwOp", "AggOdd", "MD", "OutIdx", "AbsentKey", "Comp", "Helper", "HelperE2E",
                                        "AggExpl", "FuncKw", "UnIdx", "Thunk", "DupKey", "BetaSig", "BetaSeq", "FirstProj", "OpDef"}
-      [] OTHER -> FALSE
+      [] OTHER -> {}
+
+(* ProdSet is a constant-level definition: TLC evaluates it once *)
+Enabled(prod) == prod \in ProdSet
 
 (* ------------------------------------------------------------------ *)
 Visible(ns, i) == \A j \in (i + 1)..Len(ns) : ns[j] # ns[i]
@@ -106,7 +112,7 @@ VarsOf(s, ns, ss) == {Name(ns[i]) : i \in {j \in 1..Len(ns) : ss[j].s = s /\ Vis
 (* v.f for every visible object variable v with a field f of sort s *)
 (* a field reference: attribute v.f, or (typed families) the method call v.f() -- Jet.eta has a   *)
 (* required parameter, so it is always written with an argument there                              *)
-MethodLeaves == Fam \in {"e2e", "e2et", "e2eb"}
+MethodLeaves == Fam \in {"e2e", "e2et", "e2eb", "e2el"}
 FieldRef(v, cls, f) == IF ~MethodLeaves THEN Attr(v, f)
                        ELSE IF cls = "Jet" /\ f = "eta" THEN Meth(v, f, <<IntC(1)>>) ELSE Meth(v, f, <<>>)
 FieldRefs(s, ns, ss) ==
@@ -148,6 +154,10 @@ Leaves(s, ns, ss) ==
       \cup (IF s = "Bool" /\ Enabled("True") THEN {BoolC(TRUE)} ELSE {})
       \cup (IF s = "Bool" /\ (Fam \in {"comp", "fused", "betaw"} \/ Rand)      \* (random walks must never dead-end on a Boolean hole)
             THEN {Cmp(">", f, IntC(1)) : f \in VarsOf("Int", ns, ss) \cup FieldRefs("Int", ns, ss)} ELSE {})
+      \cup (IF s = "Bool" /\ Fam = "e2el"
+            THEN {Cmp(">", f, IntC(c)) : f \in VarsOf("Int", ns, ss) \cup FieldRefs("Int", ns, ss), c \in {0, 2}} ELSE {})
+      \cup (IF s = "Int" /\ Fam = "e2el"
+            THEN {BinOp("+", f, IntC(c)) : f \in VarsOf("Int", ns, ss), c \in {0, 2}} ELSE {})
 
 Split2(r) == {<<i, r - i>> : i \in 0..r}
 Split3(r) == {<<q[1], q[2], r - q[1] - q[2]>> : q \in {w \in (0..r) \X (0..r) : w[1] + w[2] <= r}}
@@ -155,8 +165,8 @@ Split3(r) == {<<q[1], q[2], r - q[1] - q[2]>> : q \in {w \in (0..r) \X (0..r) : 
 Push(ns, x) == Append(ns, x)
 
 (* function form Op(src, args) and, in the method-form families, src.Op(args) *)
-MethForm == Fam \in {"meth", "e2e", "e2et", "e2eb"}
-FnForm == Fam \notin {"e2e", "e2et", "e2eb"}          \* the end-to-end family writes operators the way users do: seq.Op(...)
+MethForm == Fam \in {"meth", "e2e", "e2et", "e2eb", "e2el"}
+FnForm == Fam \notin {"e2e", "e2et", "e2eb", "e2el"}          \* the end-to-end family writes operators the way users do: seq.Op(...)
 Forms(op, src, rest) == (IF FnForm THEN {Fn(op, <<src>> \o rest)} ELSE {})
                           \cup (IF MethForm THEN {Meth(src, op, rest)} ELSE {})
 
@@ -511,6 +521,7 @@ RootSorts == CASE Fam = "chainp" -> {"SeqInt", "SeqSeqInt"}
                [] Fam = "helper" -> {"SeqInt", "SeqJet"}
                [] Fam = "e2e" -> {"SeqInt", "SeqJet", "SeqEvt"}
                [] Fam = "e2et" -> {"SeqInt"}
+               [] Fam = "e2el" -> {"SeqInt", "SeqJet", "SeqTrk"}
                [] Fam = "e2eb" -> {"SeqSeqSeqInt", "SeqSeqInt"}
                [] Fam \in {"meth", "md", "md1"} -> {"SeqInt", "SeqJet", "SeqEvt", "SeqTrk", "Int"}
                [] OTHER -> {"SeqInt", "SeqJet", "Int"}
